@@ -27,6 +27,11 @@ ASSUMPTIONS = [
     "SQLite commits atomically and process death (os._exit) leaves exactly the last commit (rollback journal); "
     "this is the definition of Conn.crash / Conn.commit in the model",
     "crash points are the boundaries of execute()/commit() calls; Python code between two calls has no effect on the file",
+    "the model's crash semantics assume SQLite's default durability configuration of the connection (an on-disk rollback "
+    "journal: journal_mode delete/truncate/persist/wal); the connection's PRAGMAs are read on every run, a difference from a "
+    "plain connection is a broken tie, journal_mode memory/off is reported as C08-pragma-weakens-atomic-commit",
+    "journal size is not a parameter of the model (atomic commit is assumed for any size); transactions larger than "
+    "SQLite's page cache are covered by the large-journal scenarios of the correspondence / oracle only",
 ] + c13.ASSUMPTIONS
 MODELLED_NOT_VERIFIED = c13.MODELLED_NOT_VERIFIED
 I63 = 2**63
@@ -231,12 +236,206 @@ def run_cases(cases, procs=None, budget_s=None, min_cases=0):
     t0 = time.time()
     out = []
     with ctx.Pool(procs) as pool:
-        step = max(1, procs // 2) if budget_s is not None else procs * 2
+        step = max(1, procs // 4) if budget_s is not None else procs * 2
         for a in range(0, len(cases), step):
             if budget_s is not None and a >= min_cases and time.time() - t0 > budget_s:
                 break
             out += pool.map(crash_case, cases[a:a + step], chunksize=1)
     return out
+
+
+# ----------------------------------------------------------------------------------------------
+# size dimension: journals of several MB, so that one truncating set_seq_num is a multi-page transaction that
+# does not fit SQLite's page cache; a new process on a copy of that file is killed at every call boundary
+# ----------------------------------------------------------------------------------------------
+DIGEST_MOD = 2305843009213693951
+
+
+def row_digest(rows):
+    t = 0
+    for a, m, d, s in rows:
+        t = (t + (a * 1000003 + d * 7 + s * 13 + len(m) * 17 + sum(m)) % DIGEST_MOD) % DIGEST_MOD
+    return t
+
+
+def big_frame(i, pad, rng_byte):
+    body = b"%06d" % i + bytes([rng_byte]) * pad
+    return (b"8=FIX.4.4\x019=75\x0135=D\x0149=S\x0156=T\x0134=%d\x0152=20260922-07:13:26.808\x0158=" % i) + body + b"\x0110=100\x01"
+
+
+def big_scenarios(tier):
+    """(name, sessions, messages per session and direction, padding bytes, the truncating call)"""
+    scn = [{"name": "reset-5MB-one-session", "n": 1200, "pad": 3000, "sessions": 1, "both_dirs": False, "set": [1, 1]}]
+    if tier == "thorough":
+        scn += [
+            {"name": "truncate-half-6MB-two-sessions", "n": 1500, "pad": 2000, "sessions": 2, "both_dirs": False, "set": [700, None],
+             "after_too": True},
+            {"name": "reset-many-small-rows", "n": 4000, "pad": 150, "sessions": 1, "both_dirs": True, "set": [1, 1]},
+            {"name": "reset-large-bodies", "n": 300, "pad": 20000, "sessions": 1, "both_dirs": True, "set": [1, 1]},
+        ]
+    return scn
+
+
+def observe_big(path, k, mode, code):
+    from asyncfix.journaler import Journaler
+
+    lines = ["jrn.restart -", "jrn.sessions", "jrn.digest"]
+    try:
+        j = Journaler(path)
+        ses = j.sessions()
+        rows = j.get_all_msgs()
+        integ = j.conn.execute("PRAGMA integrity_check").fetchone()[0]
+        out = ["none tx=0",
+               "d " + ",".join(f"{C.hx(kk[0])}/{C.hx(kk[1])}={c13.hstr(v)}" for kk, v in ses.items()) + " tx=0",
+               f"g {len(rows)} {row_digest(rows)} tx=0"]
+        state = {"counters": {str(v.key): [v.next_num_out, v.next_num_in] for v in ses.values()},
+                 "rows": len(rows), "digest": row_digest(rows), "integrity_check": integ}
+        del j
+        err = None if integ == "ok" else "integrity_check: " + str(integ)[:200]
+    except Exception as e:  # noqa
+        out, state, err = [], None, f"{type(e).__name__}: {e}"
+    return {"k": k, "mode": mode, "exit": code, "lines": lines, "out": out, "state": state, "err": err}
+
+
+def big_case(scn):
+    """worker: build the large journal once (every store call returns, normal close), then a new process per crash
+    point on a copy of the file: open, load the session, the truncating set_seq_num, killed at call boundary k"""
+    d = c13.mktmp("verif-c08big-")
+    try:
+        base = os.path.join(d, "base.db")
+        im = c13.Impl(base)
+        pairs = [("T", "S"), ("S", "T")][: scn["sessions"]]
+        for t, s_ in pairs:
+            im.step(("col", t, s_))
+        expect_rows = []
+        for i in range(1, scn["n"] + 1):
+            for ref in range(len(pairs)):
+                for dd in ((1, 0) if scn["both_dirs"] else (1,)):
+                    m = big_frame(i, scn["pad"], 97 + (i % 7))
+                    im.step(("persist", ref, dd, m.hex()))
+                    expect_rows.append((i, m, dd, ref + 1))
+        im.close()
+        build_lines = im.lines
+        tail = [["col", "T", "S"], ["set", 0, scn["set"][0], scn["set"][1]]]
+        shutil.copyfile(base, os.path.join(d, "dry.db"))
+        dry = dry_run_at(os.path.join(d, "dry.db"), tail)
+        total = dry["cum"][-1]
+        pts = [(k, "before") for k in range(0, total + 1)] + [(None, "close")]
+        if scn.get("after_too"):
+            pts += [(k, "after") for k in range(1, total + 1)]
+        results = []
+        for n, (k, mode) in enumerate(pts):
+            path = os.path.join(d, f"c{n}.db")
+            shutil.copyfile(base, path)
+            pid = os.fork()
+            if pid == 0:
+                try:
+                    im2, *_ = run_ops(path, tail, Killer(k, mode))
+                    if mode == "close":
+                        im2.close()
+                finally:
+                    os._exit(0)
+            _, status = os.waitpid(pid, 0)
+            results.append(observe_big(path, k, mode, os.waitstatus_to_exitcode(status)))
+            for suffix in ("", "-journal"):
+                if os.path.exists(path + suffix):
+                    os.remove(path + suffix)
+        # reference states (independent of the model): before = everything stored, after = truncated
+        o, i_ = scn["set"]
+        nout, nin = scn["n"] + 1, (scn["n"] + 1 if scn["both_dirs"] else 1)
+        before = {"counters": {str(r + 1): [nout, nin] for r in range(len(pairs))}, "rows": len(expect_rows),
+                  "digest": row_digest(expect_rows)}
+        o2, i2 = (nout if o is None else o), (nin if i_ is None else i_)
+        kept = [r for r in expect_rows if not (r[3] == 1 and r[0] >= (o2 if r[2] == 1 else i2))]
+        after = {"counters": dict(before["counters"], **{"1": [o2, i2]}), "rows": len(kept), "digest": row_digest(kept)}
+        size = os.path.getsize(base)
+        return {"scn": scn, "build_lines": build_lines, "tail_lines": dry["lines"], "cum": dry["cum"], "results": results,
+                "before": before, "after": after, "file_bytes": size}
+    finally:
+        shutil.rmtree(d, ignore_errors=True)
+
+
+def dry_run_at(path, ops):
+    killer = Killer(None, None)
+    im, lines, out, cum = run_ops(path, ops, killer)
+    im.close()
+    return {"lines": lines, "out": out, "cum": cum}
+
+
+_BIG_CACHE = {}
+
+
+def run_big(tier):
+    key = (tier, C.REPO)
+    if key not in _BIG_CACHE:
+        scn = big_scenarios(tier)
+        ctx = multiprocessing.get_context("fork")
+        with ctx.Pool(min(4, len(scn))) as pool:
+            _BIG_CACHE[key] = pool.map(big_case, scn, chunksize=1)
+    return _BIG_CACHE[key]
+
+
+def check_big(r, weak):
+    """property clauses on a large-journal scenario (implementation + reference only)"""
+    fails = []
+    cum = r["cum"]
+    for c in r["results"]:
+        inp = {"big": r["scn"], "k": c["k"], "mode": c["mode"], "file_bytes": r["file_bytes"]}
+        st = c["state"] and {k: c["state"][k] for k in ("counters", "rows", "digest")}
+        if c["k"] is None or c["k"] >= cum[-1]:
+            allowed = [r["after"]]
+        elif c["k"] <= cum[1]:
+            allowed = [r["before"]]
+        else:
+            allowed = [r["before"], r["after"]]
+        if c["err"] is None and st in allowed:
+            continue
+        if c["err"]:
+            s, what = "C08-reopen-unusable", "after the crash the journal file cannot be used: " + c["err"]
+        elif c["k"] is None:
+            s, what = "C08-close-loses-data", "closing the journal normally lost or changed data"
+        else:
+            s, what = "C08-state-not-at-op-boundary", "the reopened file is not at a boundary between completed operations"
+        if weak:
+            s = "C08-pragma-weakens-atomic-commit"
+            what = f"connection configured with {weak}: " + what
+        fails.append({"signature": s, "what": what, "input": inp,
+                      "expected": [{k: a[k] for k in ("counters", "rows")} for a in allowed],
+                      "observed": c["err"] or {k: st[k] for k in ("counters", "rows")}})
+    return fails
+
+
+# ----------------------------------------------------------------------------------------------
+# configuration: the connection's PRAGMAs against what the crash semantics of the model assume
+# ----------------------------------------------------------------------------------------------
+PRAGMAS = ["journal_mode", "synchronous", "locking_mode", "auto_vacuum", "cache_spill", "temp_store"]
+
+
+def connection_pragmas():
+    """(what a Journaler's file connection uses, what a plain sqlite3.connect uses here)"""
+    import sqlite3
+
+    from asyncfix.journaler import Journaler
+
+    d = c13.mktmp("verif-c08p-")
+    try:
+        j = Journaler(os.path.join(d, "a.db"))
+        mine = {p: j.conn.execute("PRAGMA " + p).fetchone()[0] for p in PRAGMAS}
+        del j
+        c = sqlite3.connect(os.path.join(d, "b.db"))
+        base = {p: c.execute("PRAGMA " + p).fetchone()[0] for p in PRAGMAS}
+        c.close()
+        return mine, base
+    finally:
+        shutil.rmtree(d, ignore_errors=True)
+
+
+def weak_pragmas(mine):
+    """settings under which SQLite itself no longer promises that a process death leaves the last commit"""
+    w = []
+    if str(mine.get("journal_mode", "")).lower() in ("memory", "off"):
+        w.append(f"journal_mode={mine['journal_mode']}")
+    return ", ".join(w)
 
 
 def normal_exit_case(ops):
@@ -302,7 +501,16 @@ def gen_ops(rng, maxlen, allow_half=False):
             ops.append(["rec", rng.randrange(4), rng.randint(0, 1), rng.choice([0, 1, -I63]), rng.choice([5, I63 - 1, I63])])
         else:
             ops.append(["getall", None, None])
-    return ops
+    return [list(c13.with_conv(rng, op)) if op[0] in ("col", "persist", "set", "rec", "getall") else op for op in ops]
+
+
+def conv_count(seqs):
+    out = {}
+    for ops in seqs:
+        for op in ops:
+            k = c13.conv_of(op)[0]
+            out[k] = out.get(k, 0) + 1
+    return dict(sorted(out.items()))
 
 
 def load_corpus():
@@ -347,8 +555,8 @@ def correspondence(ctx):
     t1 = time.time()
     # (b) real abrupt process exits: a forked child per crash point (both flavours) + normal close, for as many
     #     sequences (in order) as fit the time budget, at least `min_cases`
-    res_fork = run_cases([(i, ops, "all") for i, ops in enumerate(seqs)], budget_s=ctx.n(25, 240),
-                         min_cases=len(corpus) + 3)
+    res_fork = run_cases([(i, ops, "all") for i, ops in enumerate(seqs)], budget_s=ctx.n(12, 240),
+                         min_cases=ctx.n(4, len(corpus) + 3))
     ctx.note(f"C08 correspondence: snapshots of {len(seqs)} sequences in {t1 - t0:.1f}s, real process exits for "
              f"{len(res_fork)} sequences in {time.time() - t1:.1f}s")
     res = res_snap + res_fork
@@ -410,6 +618,35 @@ def correspondence(ctx):
         evals += 1
         if m[len(lines):] != ro:
             dis.append({"input": {"ops": ops, "mode": "process-exit"}, "model": m[len(lines):], "impl": ro})
+    # configuration: the PRAGMAs of a Journaler's file connection vs. a plain connection (what the model assumes)
+    mine, base = connection_pragmas()
+    evals += 1
+    if mine != base:
+        dis.append({"input": {"what": "PRAGMAs of the journal's file connection", "pragmas": PRAGMAS},
+                    "model": base, "impl": mine})
+    # size: large journals, a truncating set_seq_num killed at every call boundary of a new process
+    t2 = time.time()
+    bigs = run_big(ctx.tier)
+    ctx.note(f"C08 correspondence: {len(bigs)} large journal(s) built and killed at every call boundary in {time.time() - t2:.1f}s")
+    big_dist = []
+    for r in bigs:
+        bl = ["jrn.start -"] + r["build_lines"][1:] + ["jrn.save"]
+        spans2 = []
+        for c in r["results"]:
+            fuel = "-" if c["k"] is None else str(c["k"])
+            spans2.append(len(bl) + 2 + len(r["tail_lines"]) - 1)
+            bl += ["jrn.load", f"jrn.restart {fuel}"] + r["tail_lines"][1:] + c["lines"]
+        bm = drv.batch(bl)
+        for c, a in zip(r["results"], spans2):
+            evals += 1
+            got = bm[a:a + len(c["lines"])]
+            dist["big:" + c["mode"]] = dist.get("big:" + c["mode"], 0) + 1
+            if c["err"] or got != c["out"]:
+                i = next((i for i, (x, y) in enumerate(zip(got, c["out"])) if x != y), 0)
+                dis.append({"input": {"big": r["scn"], "k": c["k"], "mode": c["mode"]},
+                            "model": got[i] if i < len(got) else "", "impl": c["err"] or (c["out"][i] if i < len(c["out"]) else "")})
+        big_dist.append({"scenario": r["scn"]["name"], "file_bytes": r["file_bytes"], "rows": r["before"]["rows"],
+                         "crash_points": len(r["results"]), "calls_of_new_process": r["cum"]})
     content = {}
     for r in res_snap:
         for l in r["dry"]["lines"]:
@@ -433,6 +670,8 @@ def correspondence(ctx):
         "distribution": {"sequences": len(seqs), "sequences_with_real_process_exits": len(res_fork),
                          "corpus": len(corpus), "max_len": maxlen, "points": dist,
                          "stored_frame_content": dict(sorted(content.items())),
+                         "large_journals": big_dist, "connection_pragmas": mine,
+                         "calling_conventions": conv_count(seqs),
                          "sequences_with_two_or_more_sessions": sum(
                              1 for ops in seqs if len({tuple(o[1:3]) for o in ops if o[0] == "col"}) >= 2),
                          "exit_codes": {str(k): v for k, v in exitcodes.items()}},
@@ -537,10 +776,10 @@ def oracle(ctx, disagreements, broken):
         if isinstance(d.get("input"), dict) and "ops" in d["input"]:
             seqs.append(d["input"]["ops"])
     nreal = len(seqs)
-    n = ctx.n(60, 300) * (8 if broken else 1)
+    n = ctx.n(40, 300) * (8 if broken else 1)
     seqs += [gen_ops(ctx.rng, ctx.n(4, 6)) for _ in range(n)] + load_corpus()
     # real process exits for the witness / corpus / disagreeing inputs (and a few fresh ones), snapshots for the rest
-    nreal += ctx.n(1, 3) * (4 if broken else 1)
+    nreal += ctx.n(0, 3) * (4 if broken else 1) + (2 if broken else 0)
     res = run_cases([(i, ops, "all") for i, ops in enumerate(seqs[:nreal])])
     res += run_cases([(i, ops, "snap") for i, ops in enumerate(seqs[nreal:])])
     points = 0
@@ -553,14 +792,45 @@ def oracle(ctx, disagreements, broken):
             size = (real, len(f["input"]["ops"]), f["input"]["k"] if f["input"]["k"] is not None else 10**6)
             if key not in seen or size < seen[key][0]:
                 seen[key] = (size, f)
+    # configuration + size: the connection's PRAGMAs, and the large journals (real process exits at every boundary)
+    mine, _base = connection_pragmas()
+    weak = weak_pragmas(mine)
+    bigf = []
+    for r in run_big(ctx.tier):
+        points += len(r["results"])
+        bigf += check_big(r, weak)
+    for f in bigf:
+        key = f["signature"]
+        size = (0, f["input"]["big"]["n"] * f["input"]["big"]["pad"], f["input"]["k"] if f["input"]["k"] is not None else 10**6)
+        if key not in seen or (key == "C08-pragma-weakens-atomic-commit" and "big" not in seen[key][1]["input"]) or \
+                ("big" in seen[key][1]["input"] and size < seen[key][0]):
+            seen[key] = (size, f)
+    if weak and "C08-pragma-weakens-atomic-commit" not in seen:
+        seen["C08-pragma-weakens-atomic-commit"] = ((0, 0, 0), {
+            "signature": "C08-pragma-weakens-atomic-commit",
+            "what": f"the journal's file connection is configured with {weak}: SQLite then keeps no on-disk rollback "
+                    "journal, a process death inside a transaction that spilled pages can leave a half-applied or malformed "
+                    "file (not reproduced with the journal sizes of this run)",
+            "input": {"pragmas": mine}, "expected": "journal_mode delete / truncate / persist / wal", "observed": mine})
     failures = [v[1] for v in seen.values()]
     ctx.oracle_stats = {"sequences": len(seqs), "with_real_process_exits": nreal, "crash_points": points,
+                        "large_journals": [r["scn"]["name"] for r in run_big(ctx.tier)], "connection_pragmas": mine,
                         "failures": len(failures), "searched_harder": bool(broken)}
     return failures
 
 
 def replay(ctx, rp):
     inp = rp["input"]
+    if "pragmas" in inp and "ops" not in inp and "big" not in inp:
+        mine, _ = connection_pragmas()
+        print("replay: connection pragmas", mine)
+        return bool(weak_pragmas(mine))
+    if "big" in inp:
+        mine, _ = connection_pragmas()
+        r = big_case(inp["big"])
+        fails = [f for f in check_big(r, weak_pragmas(mine)) if f["input"]["k"] == inp["k"] and f["input"]["mode"] == inp["mode"]]
+        print("replay:", inp["big"]["name"], "k =", inp["k"], inp["mode"], "->", [(f["signature"], f["observed"]) for f in fails])
+        return any(f["signature"] == rp["signature"] for f in fails)
     pts = [(inp["k"], inp["mode"] if inp["mode"] != "snap" else "before")]
     r = run_cases([(0, inp["ops"], pts)], procs=1)[0]
     fails = check_case(r)
